@@ -19,9 +19,8 @@ pub fn verif_sfold_set_scratch<T: Semiring + 'static, F: Fn(DDNNF<T>) -> T>(p: &
 impl<'a> SddPtr<'a> {
     #[verifier::external_body]
     pub fn clear_scratch(&self) { unimplemented!() }
-    /// A-sdd-node-iter: `node_iter()` returns the custom iterator SddNodeIter (src/repr/sdd/sdd_or.rs), whose `next` yields, for an
-    /// or-node, its elements in order, and for a binary node the two elements (Var(label, true), high), (Var(label, false), low) --
-    /// read off its text; this stub returns them as a vector
+    /// A-sdd-node-iter: `node_iter()` returns the custom iterator SddNodeIter (src/repr/sdd/sdd_or.rs), whose `next` is PROVED (same
+    /// unit) to yield element `count` of sdd_elems and then None; this stub returns what a `for` loop over it therefore sees, as a vector
     #[verifier::external_body]
     pub fn verif_node_vec(&self) -> (r: Vec<SddAnd<'a>>)
         requires sdd_is_node(*self),
